@@ -69,13 +69,13 @@ def run(ctx):
     ctx.cov["exhaustive"] = True
     ctx._phase("s2c_paths", t0)
     t0 = time.time()
-    sims = ctx.sim_paths("proc", "Gen_SubprocessExit", "Gen_SubprocessExit.cfg", num=ctx.pick(150, 3000), depth=16,
+    sims = ctx.sim_paths("proc", "Gen_SubprocessExit", "Gen_SubprocessExit.cfg", num=ctx.pick(150, 2000), depth=16,
                          overrides={"L": 16, "MaxSpur": 4, "NCs": "{3}", "MaxC": 3, "Statuses": "{0, 1, 255, 1009, 1015, 2011}"})
     ctx.replay(sims, replayer, nontrivial=_nontrivial, label="s2c-sim")
     ctx._phase("s2c_sim", t0)
     t0 = time.time()
     # 3. code -> spec: random recorded schedules
-    n = ctx.pick(300, 6000)
+    n = ctx.pick(300, 4000)
     maxc = 8
     jobs = [(i + 1, ctx.seed * 1000003 + i, maxc, ctx.pick(40, 70)) for i in range(n)]
     traces = framework.pool_map(random_subprocess_trace, jobs)
